@@ -1023,7 +1023,7 @@ class PeptideVariantGraph():
                 orfs=[orf],
                 cleavage_params=self.cleavage_params,
                 check_variants=traversal.check_variants,
-                is_start_codon=True,
+                is_start_codon=not self.cds_start_nf,
                 additional_variants=additional_variants,
                 denylist=self.denylist,
                 leading_node=target_node,
